@@ -18,7 +18,8 @@ PROPERTY_ID = "C19"
 LEVEL = "exploration"
 RULE = (
     "generated valid inputs of 2-3 assets whose sheets reuse the same row numbers with different shapes, rows not "
-    "time-sorted, crypto fees on acquisitions (artificial fee rows), x windows that hide lots / events of the second and "
+    "time-sorted, crypto fees on acquisitions (artificial fee rows), events around New Year in far-apart UTC offsets (own "
+    "years not monotone in the detail table), x windows that hide lots / events of the second and "
     "third asset while the first shows a transaction with the same row id; each HYPERLINK formula of the detail table is "
     "parsed and its target row of '<asset> In-Out' must hold that very transaction (unique id, timestamp, type, matching "
     "table), hidden transactions must carry no link, each Summary line must link to the first detail row of that year of "
@@ -63,6 +64,25 @@ def colliding_case(rng: random.Random) -> Dict[str, Any]:
     }
 
 
+def year_inversion_case(rng: random.Random) -> Dict[str, Any]:
+    """Taxable events within a day of New Year written in far-apart UTC offsets: in instant order their own-timestamp
+    years are not monotone (2020, 2019, 2020), so a year has more than one block of rows in the detail table."""
+    year = rng.randint(2017, 2021)
+    hists = {}
+    for asset in ("AAA", "BBB")[: rng.randint(1, 2)]:
+        b = families.HB(asset=asset)
+        b.acquire(families.T(year - 1, rng.randint(1, 11), rng.randint(1, 28)), 10, 100)
+        b.acquire(families.T(year, 3, 1), 5, 150, ttype="INTEREST")
+        b.dispose(families.T(year, 6, 1), 1, 180)
+        b.dispose(families.T(year, 12, 31, 22, rng.randint(0, 59)), 1, 200, offset=840)  # own year: year + 1
+        b.dispose(families.T(year, 12, 31, 23, rng.randint(0, 59)), 1, 210, offset=rng.choice((-720, -480, 0)), ttype="GIFT")  # own year: year
+        b.dispose(families.T(year + 1, 1, 1, rng.randint(0, 9), 0), 1, 220, offset=rng.choice((0, 330, 540)))  # own year: year + 1
+        if rng.random() < 0.5:
+            b.dispose(families.T(year + 1, 5, 1), 1, 230)
+        hists[asset] = b.done(rng, shuffle=rng.random() < 0.5)
+    return {"hists": hists, "country": "us", "language": "en", "args": ["-m", rng.choice(("fifo", "lifo", "hifo", "lofo")), "-g", "en"], "ini_methods": {}, "schedule": {}, "from": None, "to": None}
+
+
 def _one(ctx: Any, expected: Expected, case: Dict[str, Any], name: str, family: str) -> None:
     outcome = run_case(ctx, expected, case, name, "links")
     ctx.count("valid_cases")
@@ -92,6 +112,8 @@ def run_shard(ctx: Any) -> None:
         rng = ctx.rng("case", index)
         if index % 3 == 0:
             _one(ctx, expected, colliding_case(rng), f"c19-{index}", "colliding-row-ids")
+        elif index % 8 == 1:
+            _one(ctx, expected, year_inversion_case(rng), f"c19-{index}", "own-year-order-inversion")
         else:
             _one(ctx, expected, make_case(rng), f"c19-{index}", "general")
 
